@@ -395,6 +395,9 @@ func buildRequest(h *hHandler, toks []string, tokens map[string][]vToken, decoy 
 		if tk == nil {
 			return req, false
 		}
+		if p.In == "path" && len(tk.Raw) == 1 && tk.Raw[0] == "" {
+			return req, false // an empty path segment is another path, not a value of this parameter
+		}
 		raws := []string{}
 		for _, x := range tk.Raw {
 			raws = append(raws, subst(x))
